@@ -677,7 +677,7 @@ class BaseMatcher:
         if self.expand_now > 0:
             # No need to search for new points, only activate delayed matches
             self.lattice[0].prune(0, self.max_lattice_width, self.expand_now)
-            return len(self.lattice[0])
+            return len([m for m in self.lattice[0].values(0) if not m.stop])
 
         t_start = time.time()
         self.lattice = dict()
@@ -726,7 +726,8 @@ class BaseMatcher:
             self.lattice[0].prune(0, max_lattice_width=self.max_lattice_width, expand_upto=self.expand_now)
             # if self.non_emitting_states:
             #     self._match_non_emitting_states(0, path)
-        return len(self.lattice[0])
+        # Stopped matches are only kept when debugging, they are not start points
+        return len([m for m in self.lattice[0].values(0) if not m.stop])
 
     def increase_delayed(self, expand_from=None):
         if expand_from is None:
